@@ -186,6 +186,7 @@ type c15Run struct {
 	nDone   int
 	nMut    int
 	key     string // violation key for view disagreements
+	dumps   []c15Dump
 }
 
 func (h *c15Run) addLogin(l []byte) {
@@ -288,7 +289,7 @@ func (h *c15Run) views() (mem, disk, load map[string]c15View, problems []string)
 	return
 }
 
-func canonViews(m map[string]c15View, h *c15Run, modelPw map[string]string) string {
+func canonViews(m map[string]c15View, modelPw map[string]string) string {
 	var es []string
 	for k, v := range m {
 		es = append(es, hx([]byte(k))+"="+fmt.Sprintf("%s:%s:%s:%s", hx([]byte(v.login)), hx([]byte(v.name)), hx([]byte(v.access)), modelPw[v.hash]))
@@ -515,7 +516,7 @@ func (h *c15Run) finish() {
 			resolve(d.mem, ms[0])
 			resolve(d.disk, ds[0])
 			resolve(d.load, ds[1])
-			impl = "dump mem " + canonViews(d.mem, h, modelPw) + " disk " + canonViews(d.disk, h, modelPw) + " load " + canonViews(d.load, h, modelPw)
+			impl = "dump mem " + canonViews(d.mem, modelPw) + " disk " + canonViews(d.disk, modelPw) + " load " + canonViews(d.load, modelPw)
 			model = "dump mem " + sortCSV(ms[0]) + " disk " + sortCSV(ds[0]) + " load " + sortCSV(ds[1])
 		} else if strings.HasPrefix(model, "users ") {
 			f := strings.Fields(model)
